@@ -818,7 +818,7 @@ impl Gen {
     // ---------------------------------------------------------------- statements
     pub fn gen_stmt(&mut self, d: u32) -> Expr {
         self.budget -= 1;
-        let choice = if self.budget <= 0 { self.rng.below(4) } else { self.rng.below(33) };
+        let choice = if self.budget <= 0 { self.rng.below(4) } else { self.rng.below(34) };
         match choice {
             0 | 1 => {
                 let x = self.fresh();
@@ -956,6 +956,58 @@ impl Gen {
                     false,
                 );
                 Expr::Seq(vec![Expr::Declare(Pat::Ident(c.clone()), b(Expr::Int(0))), Expr::While(b(cond), b(body))], true)
+            }
+            33 if d > 0 && !self.no_self_shadow => {
+                // a scope that is EMPTY when a nested scope creates closures, and only later receives the
+                // declaration those closures use: the closures must still see it (scopes are linked to their
+                // real parent, however empty it is at the time).  (Not inside frozen code: a reference to a
+                // local declared textually later is the known finding F20 there.)
+                self.feat("late-declared-captured");
+                let (mk, fs, k, i, f, acc) = (self.fresh(), self.fresh(), self.fresh(), self.fresh(), self.fresh(), self.fresh());
+                let kv = self.small_int();
+                let closures = Expr::For(
+                    vec![ForIt::Iter(IterKind::Normal, Pat::Ident(i.clone()), Expr::List(vec![Expr::Int(1), Expr::Int(2), Expr::Int(3)]))],
+                    ForBody::Yield(b(Expr::Lambda(vec![], b(Expr::Op("*".into(), b(Expr::Ident(i.clone())), b(Expr::Ident(k.clone())))))), None),
+                );
+                let use_them = Expr::For(
+                    vec![ForIt::Iter(IterKind::Normal, Pat::Ident(f.clone()), Expr::Ident(fs.clone()))],
+                    ForBody::Exec(b(Expr::OpAssign(acc.clone(), "+".into(), b(Expr::Call(b(Expr::Ident(f.clone())), vec![]))))),
+                );
+                let inner = vec![
+                    Expr::Declare(Pat::Ident(fs.clone()), b(closures)),
+                    Expr::Declare(Pat::Ident(k.clone()), b(Expr::Int(kv))),
+                    Expr::Declare(Pat::Ident(acc.clone()), b(Expr::Int(0))),
+                    use_them,
+                    Expr::Ident(acc.clone()),
+                ];
+                let pr = |e: Expr| Expr::Call(b(Expr::Ident("print".into())), vec![e]);
+                if self.rng.chance(1, 2) {
+                    // the empty scope is the body scope of a zero-parameter lambda call
+                    self.declare(&mk, Ty::Fun0);
+                    Expr::Seq(
+                        vec![
+                            Expr::Declare(Pat::Ident(mk.clone()), b(Expr::Lambda(vec![], b(Expr::Seq(inner, false))))),
+                            pr(Expr::Call(b(Expr::Ident(mk)), vec![])),
+                        ],
+                        true,
+                    )
+                } else {
+                    // the empty scope is a `while` iteration
+                    let c = self.fresh();
+                    self.declare(&c, Ty::Int);
+                    self.readonly.insert(c.clone());
+                    let mut body = inner;
+                    let last = body.pop().unwrap();
+                    body.push(pr(last));
+                    body.push(Expr::Assign(c.clone(), b(Expr::Op("+".into(), b(Expr::Ident(c.clone())), b(Expr::Int(1))))));
+                    Expr::Seq(
+                        vec![
+                            Expr::Declare(Pat::Ident(c.clone()), b(Expr::Int(0))),
+                            Expr::While(b(Expr::Op("<".into(), b(Expr::Ident(c)), b(Expr::Int(2)))), b(Expr::Seq(body, true))),
+                        ],
+                        true,
+                    )
+                }
             }
             32 if d > 0 => {
                 // order of evaluation of a call: the callee expression first, then the arguments left to
@@ -1279,6 +1331,13 @@ impl Gen {
                         // closed (`into first`) is observable
                         g.feat("yield-item-impure-value");
                         vb = Expr::Seq(vec![Expr::Call(b(Expr::Ident("print".into())), vec![Expr::Ident(x.clone())]), vb], false);
+                    }
+                    if g.rng.chance(1, 4) {
+                        // a `break <value>` raised by the VALUE expression ends the whole loop with that value,
+                        // also at the second or later occurrence of a key (it is not the fold's own early exit)
+                        g.feat("yield-item-break-value");
+                        let at = Expr::Op("==".into(), b(Expr::Ident(x.clone())), b(Expr::Int(*g.rng.pick(&[1, 2, 3, 5, 7]))));
+                        vb = Expr::If(b(at), b(Expr::Break(0, Some(b(Expr::Int(99))))), Some(b(vb)));
                     }
                     let into = match g.rng.below(5) {
                         0 => Some(b(Expr::Ident("sum".into()))),
